@@ -18,7 +18,13 @@ M_DECLS = [
     "class Col(Enum):\n    RED = 1\n    BLUE = 2\n",
     "class Box(Generic[T]):\n    def get(self) -> T:\n        ...\n",
     "class Picker:\n    def pick(self, items: list[T]) -> T:\n        ...\n",
+    # an attribute-only generic class: its last member mentions the type variable outside of any function
+    "class Rec(Generic[T]):\n    content: T\n    history: list[T]\n",
+    "def third(a: int) -> int:\n    ...\n",
 ]
+NFIX = len(M_DECLS)
+# an unrelated module that ends with such a class; "amod" is enumerated before "mmod", "umod" after it
+TRAIL = "from typing import Generic, TypeVar\n\nK = TypeVar(\"K\")\n\n\n{body}\n\nclass {name}(Generic[K]):\n    content: K\n    history: list[K]\n"
 U_PLAIN = "class Unrelated:\n    pass\n\n\ndef unrelated_fun(a: int) -> int:\n    ...\n"
 U_CHANGED = "class Unrelated:\n    def extra(self) -> str:\n        ...\n\n\ndef unrelated_fun(a: str, b: int = 2) -> str:\n    ...\n\n\nclass Another:\n    pass\n"
 U_SAME = ("class Helper:\n    def meth(self, q: str) -> str:\n        ...\n\n\nclass Other:\n    pass\n\n\nclass Sibling:\n    pass\n\n\n"
@@ -36,8 +42,8 @@ def m_source(base: str, order: int) -> str:
         decls.append("def odd(a: list[Helper, Other], b: set[Other, int]) -> int:\n    ...\n")
     if order == 2:
         # functions among themselves, classes among themselves (a subclass stays after its base class)
-        extra = decls[7:]
-        decls = [decls[1], decls[0]] + extra + [decls[6], decls[4], decls[5], decls[2], decls[3]]
+        extra = decls[NFIX:]
+        decls = [decls[1], decls[0], decls[8]] + extra + [decls[7], decls[6], decls[4], decls[5], decls[2], decls[3]]
     return "\n".join(head) + "\n\n\n" + "\n\n".join(decls)
 
 
@@ -54,6 +60,7 @@ def package(base: str, u: int, u2: int, order: int):
     content = {1: U_PLAIN, 2: U_CHANGED, 3: U_SAME}
     if u:
         files["umod.py"] = content[u]
+        files["amod.py"] = TRAIL.format(body=content[u].replace("Unrelated", "UnrelatedA").replace("unrelated_fun", "unrelated_fun_a"), name="ARec")
     if u2:
         files["renamed_umod.py"] = content[u2]
     return files
